@@ -43,6 +43,8 @@ func main() {
 			fmt.Fprintln(os.Stderr, err)
 			os.Exit(2)
 		}
+	case "racer":
+		os.Exit(cmdRacer(os.Args[2:]))
 	default:
 		usage()
 	}
